@@ -75,7 +75,7 @@ def gen_source_path(rng, used, longnames=False, dirs=True):
         used.add(cat)
         d = ""
         if dirs:
-            d = rng.choice(["", "", "", "sub/", "d.x/", "a.b.c/", "./", "./d.x/", "sub/../"])
+            d = rng.choice(["", "", "", "s+/", "d+.x/", "a+.b.c/", "./", "./d+.x/", "s+/../"])
         return d + arg
     raise RuntimeError("name space exhausted")
 
